@@ -44,7 +44,14 @@ func cleanFunc(ln string) string {
 func classifyDeath(prop string, d death) (oracle, class, detail string, ok bool) {
 	st := d.stderr
 	switch {
+	case strings.Contains(st, "verif-sched: tasks blocked on each other"):
+		return "deadlock", prop + "/deadlock", "under this schedule the tasks ended up blocked on each other for ever (every hand-over found the next task blocked as well): a deadlock or livelock of the code under test", true
 	case strings.Contains(st, "verif-watchdog:"):
+		if prop == "C12" {
+			// the scheduler makes Lock / RLock / Once.Do cooperative; a stall means the code blocks
+			// on something else (a channel, a WaitGroup, a Cond) that the simulator cannot schedule
+			return "hang", prop + "/hang/wall-clock", "a task blocked on a primitive the scheduler does not make cooperative (channel, WaitGroup, Cond): this simulator cannot decide the run", false
+		}
 		return "hang", prop + "/hang/wall-clock", "the run made no progress for the watchdog period (a loop outside the instrumented statements)", true
 	case strings.Contains(st, "WARNING: DATA RACE"):
 		cls, det, lib := classifyRace(st)
